@@ -182,7 +182,20 @@ func judgeC15(rep *lib.Report, c *lib.Ctx, ln *printerLine, res *realResult, hoo
 			misuse++
 		}
 	}
-	if got := bytes.Count(lib.Strip(res.Out), []byte("%!w(")) - bytes.Count(lib.Strip(res.Out), []byte("%!w(MISSING)")) - bytes.Count(lib.Strip(res.Out), []byte("%!w(BADINDEX)")); got != misuse {
+	nestedW := false // an operand whose own SafeFormat prints with %w through the printer: reports of its own
+	walkTerms(ln.C.Ts, func(t *lib.Term) {
+		for _, op := range t.Scr {
+			if op.O == "Printf" && bytes.ContainsRune(c.Subst(op.F), 'w') {
+				nestedW = true
+			}
+		}
+	})
+	if nestedW {
+		// (the nested %w is never a wrapping verb: where the SafeFormat method ran, its report is in the text)
+		if bytes.Contains(lib.Strip(res.Out), []byte("a")) && !bytes.Contains(lib.Strip(res.Out), []byte("a%!w(")) && bytes.Contains(res.Out, []byte("a")) && sfDispatched(ln) {
+			rep.Violate("errorf:nested-w-accepted", fmt.Sprintf("%s: a %%w issued by an operand's SafeFormat method through the printer was not reported as a bad verb: %q", desc, res.Out), kase)
+		}
+	} else if got := bytes.Count(lib.Strip(res.Out), []byte("%!w(")) - bytes.Count(lib.Strip(res.Out), []byte("%!w(MISSING)")) - bytes.Count(lib.Strip(res.Out), []byte("%!w(BADINDEX)")); got != misuse {
 		sig := "errorf:misuse-not-reported"
 		if f4Class(ws, ln.C.Ts) && got < misuse {
 			sig = "errorf:f4-text" // the text side of F4: a surplus %w that is accepted renders normally
@@ -377,4 +390,14 @@ func visibleLiterals(c *lib.Ctx, ln *printerLine) []byte {
 		j++
 	}
 	return append(append([]byte{}, f[:i]...), f[j+1:]...)
+}
+
+// sfDispatched: the SafeFormat method of some operand was invoked during the real run of the case
+func sfDispatched(ln *printerLine) bool {
+	for _, cl := range ln.Calls {
+		if cl.M == "SafeFormat" {
+			return true
+		}
+	}
+	return false
 }
